@@ -16,7 +16,13 @@ MOD = "mc.props.c05"
 
 
 def configs(tier, seed):
-    return zoo.system_configs(seed, tier, derived_metrics=True)
+    if tier == "quick":
+        return zoo.system_configs(seed, tier, derived_metrics=True)
+    # thorough: three parameter variants of every metric / constraint / state lattice
+    out = []
+    for sd in (seed, seed + 3, seed + 5):
+        out += zoo.system_configs(sd, tier, derived_metrics=True)
+    return out
 
 
 def check_config(cfg, acc):
